@@ -504,6 +504,12 @@ func (p *projSpec) sync(root string, prev map[string]string) (map[string]string,
 	for n := range prev {
 		if _, ok := cur[n]; !ok {
 			os.Remove(filepath.Join(root, n))
+			// prune directories this leaves empty (the model only knows files)
+			for d := filepath.Dir(n); d != "." && d != "/"; d = filepath.Dir(d) {
+				if os.Remove(filepath.Join(root, d)) != nil {
+					break
+				}
+			}
 		}
 	}
 	return cur, nil
